@@ -57,6 +57,10 @@ def api_ob(prog, name, cls, ctx, drv):
             Dy, Dx = c.f["Sigma"].shape[-1], px.f["Sigma"].shape[-1]
             oracle = joint_reference(c, px, (Rc, Rx, Dy, Dx))["ln_det_Sigma"]
         for o in outs:
+            if any(o is op for op in ops.values()) and not r.get("mutator"):
+                bad.append(f"{name} returns one of its operands (aliasing): a later in-place operation on the result changes the operand")
+                struct.append(("result aliases an operand", "aliasing"))
+        for o in outs:
             for fld, d in object_invariant(prog, o, f"{name} result: ", oracle):
                 bad.append(f"result {o.cls}: {fld} violated: {d}")
                 struct.append((f"result {o.cls}: {fld}", [tuple(q) for q in d]))
@@ -67,12 +71,12 @@ def api_ob(prog, name, cls, ctx, drv):
             for w in I.writes:
                 oid, c, field, site, old, new = w
                 if oid in ids and not (field in CACHE_FIELDS and old is None):
-                    if old == "<unset>" or old is None:
-                        continue      # constructor initialisation of the operand itself
-                    if site[1].endswith("__post_init__") or site[1].endswith(".normalize") and False:
-                        continue
                     if _during_setup(I, w):
+                        continue      # constructor initialisation of the operand itself
+                    if (old == "<unset>" or old is None) and site[1].endswith("__post_init__"):
                         continue
+                    # a first-time write of a non-cache attribute by a query (old value unset / None) is state as well: memoised
+                    # intermediate results keyed on nothing make later results depend on earlier queries
                     bad.append(f"operation writes non-cache field {c}.{field} of an operand at {site[0]}:{site[2]} in {site[1]}")
         for tag, o in ops.items():
             for fld, d in object_invariant(prog, o, f"{name} operand {tag}: "):
